@@ -94,17 +94,21 @@ NOT_YET = {}
 # sentences appended to the level text / note: strengthenings made after the
 # first build (seeded changes that were missed, DESIGN.md 6.5)
 ADD_TEXT = {
+ "C16": " TOML values up to 6 levels deep (arrays of tables nested in arrays of tables) and hand-written nested documents.",
+ "C10": " A quarter of the binaries sit over a concatenation of parts (multi reader: the dump writers get their input in pieces of any length).",
+ "C04": " Sub-range decodes: exactly the decoded range must be covered; a top value that is a single leaf (bits, bytes, text formats) must cover the decoded range itself.",
+ "C03": " Sources also include corpus files decoded from a sub-range of a larger buffer (bit-granular start and length, raw formats included): every value of the top buffer must lie inside the decoded range.",
  "C05": " Sources also include corpus files decoded from a sub-range of a larger buffer (decode.Options.Range and `$buf | tobytes[a:b] | decode(f)`, unaligned starts).",
- "C06": " Field-directed mutants overwrite every leaf field of the unmodified decode with 8 patterns and, for fields <= 16 bits, with every small value, unforced and forced; inputs are also handed to the decoder as a bitio.MultiReader of parts (short reads at part boundaries); saved inputs of repaired defects (props/c06/regressions.json) are replayed on every run.",
+ "C06": " Field-directed mutants overwrite every leaf field of the unmodified decode with 8 patterns and, for fields <= 16 bits, with every small value, unforced and forced; inputs are also handed to the decoder as a bitio.MultiReader of parts (short reads at part boundaries); saved inputs of repaired defects (props/c06/regressions.json) are replayed on every run. Samples whose golden test runs without -d are bucketed by the directory of their decoder, so that every format with samples is in the pool.",
  "C07": " A third of the batches also deliver the input as a DECODED JSON document (`TEXT | fromjson`, what `fq P file.json` sees) and check, model-free, that evaluating the program does not change its input (tojson before == after).",
  "C08": " Index and has() keys include fractional values around every boundary (deterministic probes and generated).",
  "C09": " .start/.stop are asserted for every non-empty binary, unaligned ranges included, as the smallest run of whole units covering the bits.",
  "C11": " String literals and comments are also generated with raw CR/LF/TAB/U+2028 and other unusual spellings; a pipe-last law (`P | repl`-style rewrites under binds) and scripted REPL sessions cover the slurp rewrite.",
  "C12": " Sub-range decodes and decoded documents whose own keys are named like decode value keys (_path, _root, ...) are regression sources.",
- "C13": " The pool holds values nested 40/400/4000 deep; 4000 generated option objects x 29 option-taking functions x 6 inputs cover option combinations.",
- "C18": " Fresh processes whose FIRST use of the registry is concurrent (cold start), lone runs in fresh processes, and chunked-input decodes (the same bytes as a MultiReader of 2..64 parts, with foreign decodes in between) must give the same hash.",
+ "C13": " The pool holds values nested 40/400/4000 deep; 4000 generated option objects x 29 option-taking functions x 6 inputs cover option combinations. Query values (ASTs of 42 programs) with every node removed or replaced are handed to _query_tostring; malformed interpreter states are set before _eval; the pool holds large powers of two and decode values with multi-byte strings around the display limits.",
+ "C18": " Fresh processes whose FIRST use of the registry is concurrent (cold start), lone runs in fresh processes, and chunked-input decodes (the same bytes as a MultiReader of 2..64 parts, with foreign decodes in between) must give the same hash. Per format, corrupt variants of a sample decoded in a fresh process after a decode of the intact file with the other force setting must equal the variants decoded on their own (an option of an earlier job must not decide a later one).",
  "C19": " Captures that start in mid-connection (whole handshake missing) are generated: when every data byte is captured the full streams are asserted, endpoints matched by address.",
- "C20": " Eight scenarios interrupt after nested evaluations that ended in different ways (error caught, break, limit, abandoned); 12000 rounds cancel a context while a read of internal/ctxreadseeker is in flight.",
+ "C20": " Eight scenarios interrupt after nested evaluations that ended in different ways (error caught, break, limit, abandoned); 12000 rounds cancel a context while a read of internal/ctxreadseeker is in flight. Stacks of 2..5 nested context writers with cancellation at any level; a gated reader forces a ctxreadseeker call to be in flight when its context is cancelled (the race detector decides).",
 }
 ADD_NOTE = {
  "C09": " (supersedes: start/stop of unaligned ranges were unspecified in the first build.)",
